@@ -17,6 +17,7 @@ from concurrent.futures import ThreadPoolExecutor
 REPO = "/repo"
 VERIF = "/verif"
 ROOT = "/tmp/parseed"
+KEEP = "--keep" in sys.argv      # leave the scratch worktree + copy in place (debugging); remove with --clean <seed>
 
 
 def sh(cmd, cwd=None, timeout=7200, env=None):
@@ -68,8 +69,9 @@ def one(job):
             with open(os.path.join(ROOT, "%s.%s.log" % (seed, c)), "w") as f:
                 f.write(out)
     finally:
-        sh("git -C %s worktree remove --force %s" % (REPO, wt))
-        shutil.rmtree(base, ignore_errors=True)
+        if not KEEP:
+            sh("git -C %s worktree remove --force %s" % (REPO, wt))
+            shutil.rmtree(base, ignore_errors=True)
     return seed, res
 
 
@@ -85,6 +87,11 @@ def main():
         i = argv.index("--tier")
         tier = argv[i + 1]
         del argv[i:i + 2]
+    if "--clean" in argv:
+        for a in argv[argv.index("--clean") + 1:]:
+            sh("git -C %s worktree remove --force %s" % (REPO, os.path.join(ROOT, a, "repo")))
+            shutil.rmtree(os.path.join(ROOT, a), ignore_errors=True)
+        return 0
     update = "--update-meta" in argv
     allseeds = "--all" in argv
     argv = [a for a in argv if not a.startswith("--")]
